@@ -424,14 +424,14 @@ class Ref(object):
         x = self.v[k]
         return math.isfinite(x) and all(self.v[j] == x for j in range(k - self.sl, k))
 
-    def _stall_index(self, ref):
+    def _stall_index(self, ref, metric):
         """Evaluation index at which the documented stall counter (reference = first norm of the run, reset on a change)
         trips when the initial reference is `ref`; None if it never does."""
         count = 0
         for k in range(1, len(self.v)):
             if not math.isfinite(self.v[k]):
                 return None
-            cur = self.v[k] / self.n0
+            cur = metric(self.v[k])
             if abs(ref - cur) <= self.stol:
                 count += 1
                 if count >= self.sl:
@@ -442,11 +442,20 @@ class Ref(object):
         return None
 
     def first_rel_comparison_differs(self):
-        """Predicate of F6b: with stall_tol_type='rel' the stall counter trips at a different iterate when its initial
-        reference is the absolute initial norm n0 than when it is the initial relative norm n0/n0 = 1."""
-        if self.sl <= 0 or self.stype != 'rel' or len(self.v) < 2 or not self.n0_usable() or self.n0 == 1.0:
+        """Predicate of F6b: the stall counter trips at a different iterate when its initial reference is the solver's
+        normalisation factor norm0 (the absolute initial norm, or 1.0 when that norm is 0) than when it is the initial
+        norm in the metric the later comparisons use (n0/n0 = 1 for stall_tol_type='rel', n0 itself for 'abs')."""
+        if self.sl <= 0 or len(self.v) < 2 or self.n0 is None or not math.isfinite(self.n0):
             return False
-        return self._stall_index(1.0) != self._stall_index(self.n0)
+        norm0 = self.n0 if self.n0 != 0 else 1.0
+        if self.stype == 'rel':
+            metric = lambda x: x / norm0
+        else:
+            metric = lambda x: x
+        true_ref = metric(self.n0)
+        if true_ref == norm0:
+            return False
+        return self._stall_index(true_ref, metric) != self._stall_index(norm0, metric)
 
 
 def known_f6(cfg, norms, has_init, forced_first):
